@@ -54,6 +54,8 @@ FIsZero(a, ret)    == ret = (IF F[a] = PZero THEN 1 ELSE 0) /\ FSame
 FEquals(a, b, ret) == ret = (IF F[a] = F[b] THEN 1 ELSE 0) /\ FSame
 
 \* C11: the exported map functions.  Q is the returned point of E' (affine, as read from the result).
+\* Secp256Polynomial(y, x): the right-hand side of the curve equation, y <- x^3 + 7 (distinct registers)
+MPoly(d, a)   == d # a /\ F'[d] = PAdd(PMul(PSqr(F[a]), F[a]), CurveB) /\ FFrame(d)
 MSswu(a, Q)   == SW!IsMapOf(F[a], Q) /\ FSame
 MIso(Q, R)    == IsIsoMapOf(Q, R) /\ C!OnCurve(R) /\ FSame
 
